@@ -22,6 +22,10 @@ package c05
 //       <when>  = T (right after the init answer) | S (right after the first snapshot answer) |
 //                 P (right after echoing the second point) | bS (before the first snapshot answer) | - (never)
 //       <stray> = I | T | S | R | K
+//                 slowS / slowP: no stray, but the UDF is the real kapacitor.UDFSocket / UDFProcess over an in-memory
+//                 socket / command whose Open / Start takes 150 ms (the snapshot interval is 10 ms)
+//                 stopS / stopP: the same UDFs, no snapshotter, the task is stopped 30 ms after its start
+//                 (observation `stopped`, or `X stoppanic` when the goroutine that stopped it panicked)
 //     Observation as for `live`: `<canaries at the sink> <task error 0|1> <bystander points>/<sent> <snap>`
 //     with snap = 1 when the UDF served at least two snapshot requests after the stray.
 
@@ -30,6 +34,7 @@ import (
 	"errors"
 	"fmt"
 	"io"
+	"os"
 	"strconv"
 	"strings"
 	"sync"
@@ -38,6 +43,7 @@ import (
 
 	imodels "github.com/influxdata/influxdb/models"
 	"github.com/influxdata/kapacitor"
+	"github.com/influxdata/kapacitor/command"
 	"github.com/influxdata/kapacitor/edge"
 	"github.com/influxdata/kapacitor/udf"
 	"github.com/influxdata/kapacitor/udf/agent"
@@ -304,7 +310,14 @@ func newPeerUDF(taskID, nodeID string, d udf.Diagnostic, abortCallback func()) u
 	s := udf.NewServer(taskID, nodeID, bufio.NewReader(pr), reqW, d, 0, abortCallback, func() {})
 	var once sync.Once
 	closeAll := func() { once.Do(func() { pr.Close(); pw.Close(); reqR.Close() }) }
-	go func() {
+	go scriptedPeer(ps, reqR, pw)
+	return &peerUDF{Server: s, closeAll: closeAll}
+}
+
+// scriptedPeer is the UDF on the other end of the pipes: it answers every request correctly and sends the one
+// stray response of the script.
+func scriptedPeer(ps *peerScript, reqR io.Reader, pw io.WriteCloser) {
+	{
 		defer pw.Close()
 		br := bufio.NewReader(reqR)
 		var buf []byte
@@ -361,8 +374,97 @@ func newPeerUDF(taskID, nodeID string, d udf.Diagnostic, abortCallback func()) u
 				}
 			}
 		}
+	}
+}
+
+// A UDF that is SLOW TO START, everything else well-behaved: the real kapacitor.UDFSocket over an in-memory
+// Socket whose Open takes `delay`, and the real kapacitor.UDFProcess over an in-memory command whose Start takes
+// `delay`. Both create their udf.Server only in Open().
+
+type memSocket struct {
+	delay time.Duration
+	ps    *peerScript
+	mu    sync.Mutex
+	in    io.WriteCloser
+	out   io.Reader
+	shut  func()
+}
+
+func (m *memSocket) Open() error {
+	time.Sleep(m.delay)
+	pr, pw := io.Pipe()
+	reqR, reqW := io.Pipe()
+	m.mu.Lock()
+	m.in, m.out = reqW, pr
+	m.shut = func() { pr.Close(); pw.Close(); reqR.Close(); reqW.Close() }
+	m.mu.Unlock()
+	go scriptedPeer(m.ps, reqR, pw)
+	return nil
+}
+func (m *memSocket) Close() error {
+	m.mu.Lock()
+	defer m.mu.Unlock()
+	if m.shut != nil {
+		m.shut()
+	}
+	return nil
+}
+func (m *memSocket) In() io.WriteCloser { return m.in }
+func (m *memSocket) Out() io.Reader     { return m.out }
+
+type memCommander struct {
+	delay time.Duration
+	ps    *peerScript
+}
+
+func (c memCommander) NewCommand(command.Spec) command.Command {
+	m := &memCommand{delay: c.delay, ps: c.ps, done: make(chan struct{})}
+	m.pr, m.pw = io.Pipe()
+	m.reqR, m.reqW = io.Pipe()
+	m.errR, m.errW = io.Pipe()
+	return m
+}
+
+type memCommand struct {
+	delay    time.Duration
+	ps       *peerScript
+	pr, reqR *io.PipeReader
+	pw, reqW *io.PipeWriter
+	errR     *io.PipeReader
+	errW     *io.PipeWriter
+	done     chan struct{}
+}
+
+func (m *memCommand) Start() error {
+	time.Sleep(m.delay) // fork/exec of a big interpreter, a loaded machine ...
+	go func() {
+		scriptedPeer(m.ps, m.reqR, m.pw)
+		m.errW.Close()
+		close(m.done)
 	}()
-	return &peerUDF{Server: s, closeAll: closeAll}
+	return nil
+}
+func (m *memCommand) Wait() error                        { <-m.done; return nil }
+func (m *memCommand) Stdin(io.Reader)                    {}
+func (m *memCommand) Stdout(io.Writer)                   {}
+func (m *memCommand) Stderr(io.Writer)                   {}
+func (m *memCommand) StdinPipe() (io.WriteCloser, error) { return m.reqW, nil }
+func (m *memCommand) StdoutPipe() (io.Reader, error)     { return m.pr, nil }
+func (m *memCommand) StderrPipe() (io.Reader, error)     { return m.errR, nil }
+func (m *memCommand) Kill()                              { m.reqR.Close(); m.pw.Close() }
+
+const slowStart = 150 * time.Millisecond
+
+// newSlowUDF: what the UDF service of the daemon creates for a socket / process UDF (udf service Create).
+func newSlowUDF(name, taskID, nodeID string, d udf.Diagnostic, abortCallback func()) udf.Interface {
+	ps, _ := thePeerScript.Load().(*peerScript)
+	if ps == nil {
+		ps = &peerScript{when: "-"}
+	}
+	if name == "slowsock" {
+		return kapacitor.NewUDFSocket(taskID, nodeID, &memSocket{delay: slowStart, ps: ps}, d, 0, abortCallback)
+	}
+	return kapacitor.NewUDFProcess(taskID, nodeID, memCommander{delay: slowStart, ps: ps}, command.Spec{Prog: "peer"}, d, 0, abortCallback)
 }
 
 var udfTaskSeq int
@@ -370,8 +472,13 @@ var udfTaskSeq int
 const udfTaskSnapshotEvery = 10 * time.Millisecond
 
 func execUDFTask(when string, strayTok string) string {
+	udfName, stopEarly := "peer", false
 	switch when {
 	case "T", "S", "P", "bS", "-":
+	case "slowS", "stopS":
+		udfName, stopEarly = "slowsock", when == "stopS"
+	case "slowP", "stopP":
+		udfName, stopEarly = "slowproc", when == "stopP"
 	default:
 		return "badop"
 	}
@@ -380,6 +487,9 @@ func execUDFTask(when string, strayTok string) string {
 	}
 	t := sharedTM()
 	ps := &peerScript{when: when, stray: strayTok[0]}
+	if udfName != "peer" {
+		ps.when = "-" // slow to start, otherwise well-behaved: no stray
+	}
 	thePeerScript.Store(ps)
 	udfTaskSeq++
 	id := fmt.Sprintf("udftask%d", udfTaskSeq)
@@ -388,7 +498,11 @@ func execUDFTask(when string, strayTok string) string {
 	if err != nil {
 		return "othererr"
 	}
-	task, err := t.TM.NewTask(id, "stream|from().measurement('m')@peer()@sink()", kapacitor.StreamTask, dbrps, udfTaskSnapshotEvery, nil)
+	snapEvery := udfTaskSnapshotEvery
+	if stopEarly {
+		snapEvery = 0 // no snapshotter: only the stop meets the UDF that is still starting
+	}
+	task, err := t.TM.NewTask(id, "stream|from().measurement('m')@"+udfName+"()@sink()", kapacitor.StreamTask, dbrps, snapEvery, nil)
 	if err != nil {
 		t.TM.StopTask(oid)
 		other.Wait()
@@ -399,6 +513,34 @@ func execUDFTask(when string, strayTok string) string {
 		t.TM.StopTask(oid)
 		other.Wait()
 		return "defineerr"
+	}
+	if stopEarly {
+		// the task is stopped while its UDF is still starting
+		time.Sleep(slowStart / 5)
+		stopped := make(chan string, 1)
+		go func() {
+			defer func() {
+				if r := recover(); r != nil {
+					stopped <- "X stoppanic"
+				}
+			}()
+			t.TM.StopTask(id)
+			et.Wait()
+			stopped <- "stopped"
+		}()
+		var res string
+		select {
+		case res = <-stopped:
+		case <-time.After(12 * time.Second):
+			return "X hang"
+		}
+		if res != "stopped" {
+			return res
+		}
+		t.TM.StopTask(oid)
+		other.Wait()
+		t.Rec.Reset()
+		return res
 	}
 	count := func(task string) int {
 		n := 0
@@ -444,6 +586,9 @@ func execUDFTask(when string, strayTok string) string {
 		snap = 1
 	}
 	taskErr := 0
+	if !t.TM.IsExecuting(id) {
+		taskErr = 1 // the task died on its own
+	}
 	waitErr := make(chan error, 1)
 	go func() {
 		t.TM.StopTask(id)
@@ -451,8 +596,14 @@ func execUDFTask(when string, strayTok string) string {
 	}()
 	select {
 	case err := <-waitErr:
-		if err != nil {
+		// UDFSocket.Close wraps the errNodeAborted of an ordinary stop (errors.Wrap), which runUDF then no longer
+		// recognises: EVERY StopTask of a task with a socket UDF reports "node aborted". That is not this
+		// property's business: for the socket variant only a task that died by itself counts.
+		if err != nil && udfName != "slowsock" {
 			taskErr = 1
+			if os.Getenv("VERIF_LOG") != "" {
+				fmt.Fprintln(os.Stderr, "udftask: task error:", err)
+			}
 		}
 	case <-time.After(12 * time.Second):
 		return "X hang"
